@@ -143,20 +143,26 @@ def discharge_cached(obls, tier, seed, use_cache=True):
     solve.discharge(todo, rounds=rounds, seed=seed, both=(tier == "thorough"))
     for ob in todo:
         if ob.result == "unsat" and ob.kind not in GUARD_KINDS:
-            d = os.path.join(CACHE, ob.key[:2])
-            os.makedirs(d, exist_ok=True)
-            with open(os.path.join(d, ob.key), "w") as f:
-                json.dump({"backend": ob.backend, "time": ob.time, "name": ob.name}, f)
+            try:
+                d = os.path.join(CACHE, ob.key[:2])
+                os.makedirs(d, exist_ok=True)
+                with open(os.path.join(d, ob.key), "w") as f:
+                    json.dump({"backend": ob.backend, "time": ob.time, "name": ob.name}, f)
+            except OSError:
+                pass        # the cache is an optimisation only
     if use_cache and tier != "thorough":
         d = os.path.join(CACHE, "byname", _l1_key())
         os.makedirs(d, exist_ok=True)
         new = [ob for ob in obls if ob.result == "unsat" and ob.kind not in GUARD_KINDS and names[ob.name] == 1 and ob.name not in l1
                and getattr(ob, "key", "")]
         if new:
-            with open(os.path.join(d, "%d.jsonl" % os.getpid()), "a") as f:
-                for ob in new:
-                    f.write(json.dumps({"name": ob.name, "backend": ob.backend, "time": ob.time, "key": ob.key}) + "\n")
-                    l1[ob.name] = {"name": ob.name, "backend": ob.backend, "time": ob.time, "key": ob.key}
+            try:
+                with open(os.path.join(d, "%d.jsonl" % os.getpid()), "a") as f:
+                    for ob in new:
+                        f.write(json.dumps({"name": ob.name, "backend": ob.backend, "time": ob.time, "key": ob.key}) + "\n")
+                        l1[ob.name] = {"name": ob.name, "backend": ob.backend, "time": ob.time, "key": ob.key}
+            except OSError:
+                pass
     return obls
 
 
